@@ -2,3 +2,4 @@ pub mod bmt_ref;
 pub mod bmt_shared;
 pub mod instr_gen;
 pub mod smt;
+pub mod vmstep;
